@@ -35,55 +35,62 @@ def run(prog, chk):
     cnt = R.sim_count_field
     al = sim['allocate']
     # ---- R03.1 -----------------------------------------------------------------------------
-    g = prog.cfg(al)
-    incs = [n for n, l, r, op in g.writes() if SX.is_this_member(SX.strip(l), cnt)]
-    idx_decl = [d for d in g.nodes if d.kind == 'decl' and SX.is_node(d.e.get('init')) and any(
-        x['k'] == 'un' and x['op'] == '++' and x.get('postfix') and SX.is_this_member(SX.strip(x['e']), cnt) for x in SX.walk(d.e['init']))]
-    rets = [n for n in g.nodes if n.kind == 'return']
-    ok = len(incs) == 1 and len(idx_decl) == 1 and bool(rets) and all(SX.is_node(SX.strip(r.e.get('e'))) and SX.strip(r.e['e']).get('id') == idx_decl[0].e['id'] for r in rets)
-    chk.ob('R03.1', al, al.ln, ok, 'qubit count incremented exactly once (post-increment) and the old count is returned', key='alloc:count')
-    news = [v for v in SX.walk(al.body) if v['k'] == 'var' and 'std::vector<std::complex<double>' in v['type']]
-    if len(news) != 1:
-        raise AnalysisBroken('allocate: new state vector not found')
-    nv = news[0]
-    init = SX.strip(nv.get('init'))
-    F = KT.Folder()
-    size_ok = False
-    if SX.is_node(init) and init['k'] == 'construct' and len(SX.real_args(init)) == 1:
-        try:
-            size_ok = F.fold(SX.real_args(init)[0]) == KT.op('*', KT.I(2), KT.S(amp + '.size()'))
-        except KT.Unfoldable:
-            pass
-    chk.ob('R03.1', al, nv.get('ln', al.ln), size_ok, 'new state has exactly twice the old size and is value-initialised (zeros): %s' % SX.show(init)[:60], key='alloc:size')
-    loops = [s for s in al.body['body'] if s['k'] == 'for']
-    copy_ok = zero_ok = False
-    if len(loops) == 1:
-        fl = KP.full_state_loop(loops[0], amp)
-        if fl:
-            iv, body = fl
-            writes = []
-            for n in SX.walk(body, into_lambdas=False):
-                w = SX.write_target(n)
-                if w and w[2] == '=' and SX.is_node(SX.strip(w[0])) and SX.strip(w[0])['k'] == 'index' and SX.strip(SX.strip(w[0])['base']).get('id') == nv['id']:
-                    writes.append((F2(iv).fold(SX.strip(w[0])['i']), SX.strip(w[1])))
-            i_t = KT.S('i')
-            for idx, rhs in writes:
-                if idx == i_t:
-                    copy_ok = rhs.get('k') == 'index' and SX.show(rhs['base']) == amp and F2(iv).fold(rhs['i']) == i_t
-            others = [(idx, rhs) for idx, rhs in writes if idx != i_t]
-            zero_ok = all(rhs.get('v') in (0, 0.0) and idx == KT.op('+', i_t, KT.S(amp + '.size()')) for idx, rhs in others)
-            nonloop = [n for n in SX.walk(al.body, into_lambdas=False) if (lambda w: w and SX.is_node(SX.strip(w[0])) and SX.strip(w[0]).get('k') == 'index'
-                       and SX.strip(SX.strip(w[0])['base']).get('id') == nv['id'])(SX.write_target(n))]
-            if len(nonloop) != len(writes):
-                zero_ok = False
-    chk.ob('R03.1', al, loops[0].get('ln', al.ln) if loops else al.ln, copy_ok, 'old amplitudes are copied index-for-index over the full range', key='alloc:copy')
-    chk.ob('R03.1', al, loops[0].get('ln', al.ln) if loops else al.ln, zero_ok, 'no other cell of the new vector receives a non-zero value', key='alloc:zero-half')
-    swaps = [c for c in g.calls(lambda e: (e['k'] == 'mcall' and SX.short(e['callee']) == 'swap' and SX.is_this_member(SX.strip(e.get('obj')), amp)
-                                           and SX.strip(SX.real_args(e)[0]).get('id') == nv['id']))]
-    swaps += [n for n, l, r, op in g.writes() if op == '=' and SX.is_this_member(SX.strip(l), amp) and any(x.get('k') == 'ref' and x.get('id') == nv['id'] for x in SX.walk(r))]
-    heads = [n for n in g.nodes if n.kind == 'loophead']
-    ok = len(swaps) == 1 and all(swaps[0].id in g.reachable([h]) and h.id not in g.reachable(swaps) for h in heads) and all(g.must_precede(swaps, r) for r in rets)
-    chk.ob('R03.1', al, al.ln, ok, 'the new vector replaces the state after the copy loop, on every path', key='alloc:install')
+    # decided first by abstract evaluation of the allocator on symbolic states (any spelling of copy-and-zero is accepted);
+    # the structural form below is the fallback when the function uses a construct the evaluator does not model
+    if _alloc_state_table(prog, chk, R, al, amp, cnt):
+        return_after_table = True
+    else:
+        return_after_table = False
+    if not return_after_table:
+        g = prog.cfg(al)
+        incs = [n for n, l, r, op in g.writes() if SX.is_this_member(SX.strip(l), cnt)]
+        idx_decl = [d for d in g.nodes if d.kind == 'decl' and SX.is_node(d.e.get('init')) and any(
+            x['k'] == 'un' and x['op'] == '++' and x.get('postfix') and SX.is_this_member(SX.strip(x['e']), cnt) for x in SX.walk(d.e['init']))]
+        rets = [n for n in g.nodes if n.kind == 'return']
+        ok = len(incs) == 1 and len(idx_decl) == 1 and bool(rets) and all(SX.is_node(SX.strip(r.e.get('e'))) and SX.strip(r.e['e']).get('id') == idx_decl[0].e['id'] for r in rets)
+        chk.ob('R03.1', al, al.ln, ok, 'qubit count incremented exactly once (post-increment) and the old count is returned', key='alloc:count')
+        news = [v for v in SX.walk(al.body) if v['k'] == 'var' and 'std::vector<std::complex<double>' in v['type']]
+        if len(news) != 1:
+            raise AnalysisBroken('allocate: new state vector not found')
+        nv = news[0]
+        init = SX.strip(nv.get('init'))
+        F = KT.Folder()
+        size_ok = False
+        if SX.is_node(init) and init['k'] == 'construct' and len(SX.real_args(init)) == 1:
+            try:
+                size_ok = F.fold(SX.real_args(init)[0]) == KT.op('*', KT.I(2), KT.S(amp + '.size()'))
+            except KT.Unfoldable:
+                pass
+        chk.ob('R03.1', al, nv.get('ln', al.ln), size_ok, 'new state has exactly twice the old size and is value-initialised (zeros): %s' % SX.show(init)[:60], key='alloc:size')
+        loops = [s for s in al.body['body'] if s['k'] == 'for']
+        copy_ok = zero_ok = False
+        if len(loops) == 1:
+            fl = KP.full_state_loop(loops[0], amp)
+            if fl:
+                iv, body = fl
+                writes = []
+                for n in SX.walk(body, into_lambdas=False):
+                    w = SX.write_target(n)
+                    if w and w[2] == '=' and SX.is_node(SX.strip(w[0])) and SX.strip(w[0])['k'] == 'index' and SX.strip(SX.strip(w[0])['base']).get('id') == nv['id']:
+                        writes.append((F2(iv).fold(SX.strip(w[0])['i']), SX.strip(w[1])))
+                i_t = KT.S('i')
+                for idx, rhs in writes:
+                    if idx == i_t:
+                        copy_ok = rhs.get('k') == 'index' and SX.show(rhs['base']) == amp and F2(iv).fold(rhs['i']) == i_t
+                others = [(idx, rhs) for idx, rhs in writes if idx != i_t]
+                zero_ok = all(rhs.get('v') in (0, 0.0) and idx == KT.op('+', i_t, KT.S(amp + '.size()')) for idx, rhs in others)
+                nonloop = [n for n in SX.walk(al.body, into_lambdas=False) if (lambda w: w and SX.is_node(SX.strip(w[0])) and SX.strip(w[0]).get('k') == 'index'
+                           and SX.strip(SX.strip(w[0])['base']).get('id') == nv['id'])(SX.write_target(n))]
+                if len(nonloop) != len(writes):
+                    zero_ok = False
+        chk.ob('R03.1', al, loops[0].get('ln', al.ln) if loops else al.ln, copy_ok, 'old amplitudes are copied index-for-index over the full range', key='alloc:copy')
+        chk.ob('R03.1', al, loops[0].get('ln', al.ln) if loops else al.ln, zero_ok, 'no other cell of the new vector receives a non-zero value', key='alloc:zero-half')
+        swaps = [c for c in g.calls(lambda e: (e['k'] == 'mcall' and SX.short(e['callee']) == 'swap' and SX.is_this_member(SX.strip(e.get('obj')), amp)
+                                               and SX.strip(SX.real_args(e)[0]).get('id') == nv['id']))]
+        swaps += [n for n, l, r, op in g.writes() if op == '=' and SX.is_this_member(SX.strip(l), amp) and any(x.get('k') == 'ref' and x.get('id') == nv['id'] for x in SX.walk(r))]
+        heads = [n for n in g.nodes if n.kind == 'loophead']
+        ok = len(swaps) == 1 and all(swaps[0].id in g.reachable([h]) and h.id not in g.reachable(swaps) for h in heads) and all(g.must_precede(swaps, r) for r in rets)
+        chk.ob('R03.1', al, al.ln, ok, 'the new vector replaces the state after the copy loop, on every path', key='alloc:install')
     fld = [f for f in R.sim['fields'] if f['name'] == amp][0]
     i0 = fld.get('init')
     def _lits(e):
@@ -143,7 +150,8 @@ def run(prog, chk):
     # ---- R03.3 -----------------------------------------------------------------------------
     from ..ktry import parent_map
     nd = 0
-    for f in R.sim_methods():
+    sim_file = R.sim_methods()[0].file if R.sim_methods() else ''
+    for f in list(R.sim_methods()) + [x for x in prog.functions if x.body and x.file == sim_file and x.kind == 'function']:
         if not f.body:
             continue
         pm = parent_map(f.body)
@@ -156,7 +164,7 @@ def run(prog, chk):
             d = SX.strip(n['r'] if n['k'] != 'opcall' else n['args'][1])
             ok, why = _divisor_ok(prog, f, n, d, pm, info if (f is m and info) else None)
             chk.ob('R03.3', f, n.get('ln', f.ln), ok, 'divisor %s: %s' % (SX.show(d)[:40], why), key='div:%s:%s' % (f.short, SX.show(d)[:24]))
-    chk.count('floating-point divisions in the simulator', nd, 4)
+    chk.count('floating-point divisions in the simulator (incl. file-local helpers)', nd, 2)
 
     # ---- R03.4 -----------------------------------------------------------------------------
     free = [f['name'] for f in R.ev['fields'] if f['type'] == 'std::vector<int>' and 'free' in f['name'].lower()]
@@ -250,6 +258,33 @@ class _Sub:
 
     def note(self, *a):
         pass
+
+
+def _alloc_state_table(prog, chk, R, al, amp, cnt):
+    """allocate on symbolic states: returns the old count, count+1, new state = old state followed by as many zeros"""
+    from ..kabs import Interp, Obj, Unsupported, OutOfRange
+    mf = R.sim_measured_field
+    bad, n = [], 0
+    for nq in (0, 1, 2, 3):
+        n += 1
+        old = ['a%d' % i for i in range(2 ** nq)]
+        this = Obj({cnt: nq, mf: [False] * nq, amp: list(old)})
+        try:
+            ret = Interp(prog, {}, max_steps=20000).call_fn_env(al, [], {'this': this})
+        except OutOfRange as ex:
+            bad.append('n=%d: %s' % (nq, ex))
+            continue
+        except Unsupported:
+            return False
+        st = this[amp]
+        zero = lambda z: z == 0 or z == 0.0 or (isinstance(z, complex) and z == 0)
+        ok = ret == nq and this[cnt] == nq + 1 and isinstance(st, list) and len(st) == 2 * len(old) and st[:len(old)] == old and all(zero(z) for z in st[len(old):])
+        if not ok:
+            bad.append('n=%d: returned %r, count %r, state %s' % (nq, ret, this[cnt], (st[:6] if isinstance(st, list) else st)))
+    chk.ob('R03.1', al, al.ln, not bad,
+           'allocate returns the old qubit count, increments it once, and the new state is the old amplitudes followed by as many zeros (%d symbolic states); counterexamples: %s' % (n, bad[:3]),
+           key='alloc:table')
+    return True
 
 
 def _divisor_ok(prog, f, n, d, pm, minfo):
